@@ -20,6 +20,7 @@ import (
 	commitmenttypes "github.com/cosmos/ibc-go/v8/modules/core/23-commitment/types"
 	host "github.com/cosmos/ibc-go/v8/modules/core/24-host"
 	ibctm "github.com/cosmos/ibc-go/v8/modules/light-clients/07-tendermint"
+	protov2 "google.golang.org/protobuf/proto"
 
 	commontypes "github.com/dymensionxyz/dymension/v3/x/common/types"
 )
@@ -86,8 +87,7 @@ func (f *Fix) ibcRecv(pkt channeltypes.Packet, proofHeight uint64, relayer sdk.A
 	}
 	err := f.Try(func(ctx sdk.Context) error {
 		ck.SetPacketReceipt(ctx, pkt.DestinationPort, pkt.DestinationChannel, pkt.Sequence)
-		uid := commontypes.NewPacketUID(commontypes.RollappPacket_ON_RECV, pkt.DestinationPort, pkt.DestinationChannel, pkt.Sequence)
-		ctx = commontypes.CtxWithPacketProofHeight(ctx, uid, clienttypes.NewHeight(1, proofHeight))
+		ctx = f.proofCtx(ctx, commontypes.RollappPacket_ON_RECV, pkt, proofHeight)
 		cctx, write := ctx.CacheContext()
 		ack := f.App.TransferStack.OnRecvPacket(cctx, pkt, relayer)
 		if ack == nil || ack.Success() {
@@ -136,4 +136,55 @@ func (f *Fix) setChanState(port, channel string, st channeltypes.State) {
 func (f *Fix) deleteCommitment(ctx sdk.Context, pkt channeltypes.Packet) {
 	st := ctx.KVStore(f.App.GetKVStoreKeys()["ibc"])
 	st.Delete(host.PacketCommitmentKey(pkt.SourcePort, pkt.SourceChannel, pkt.Sequence))
+}
+
+// pkTx is the minimal sdk.Tx the proof-height ante decorator needs.
+type pkTx struct{ msgs []sdk.Msg }
+
+func (t pkTx) GetMsgs() []sdk.Msg                    { return t.msgs }
+func (t pkTx) GetMsgsV2() ([]protov2.Message, error) { return nil, nil }
+
+// proofCtx derives the context in which the middleware sees the packet's proof height exactly the
+// way production does: the real IBCProofHeightDecorator (app/ante chain) runs over the whole
+// transaction.  A relayer batches messages freely, so the transaction also carries the other two
+// kinds of IBC packet message for the SAME port / channel / sequence with other proof heights (a
+// far-future one before, height 1 after the message that is executed): the proof height of one
+// message must not leak into another.  Only the message of interest is executed afterwards.
+func (f *Fix) proofCtx(ctx sdk.Context, typ commontypes.RollappPacket_Type, pkt channeltypes.Packet, proofHeight uint64) sdk.Context {
+	mk := func(t commontypes.RollappPacket_Type, h uint64) sdk.Msg {
+		ht := clienttypes.NewHeight(1, h)
+		switch t {
+		case commontypes.RollappPacket_ON_RECV:
+			p := pkt
+			if typ != commontypes.RollappPacket_ON_RECV {
+				// hub port/channel of a sent packet is its source; the decoy receive arrives on that channel
+				p.DestinationPort, p.DestinationChannel = pkt.SourcePort, pkt.SourceChannel
+			}
+			return &channeltypes.MsgRecvPacket{Packet: p, ProofHeight: ht, Signer: Actor(1).String()}
+		case commontypes.RollappPacket_ON_ACK, commontypes.RollappPacket_ON_TIMEOUT:
+			p := pkt
+			if typ == commontypes.RollappPacket_ON_RECV {
+				p.SourcePort, p.SourceChannel = pkt.DestinationPort, pkt.DestinationChannel
+			}
+			if t == commontypes.RollappPacket_ON_ACK {
+				return &channeltypes.MsgAcknowledgement{Packet: p, ProofHeight: ht, Signer: Actor(1).String()}
+			}
+			return &channeltypes.MsgTimeout{Packet: p, ProofHeight: ht, Signer: Actor(1).String()}
+		}
+		return nil
+	}
+	var before, after []sdk.Msg
+	for _, t := range []commontypes.RollappPacket_Type{commontypes.RollappPacket_ON_RECV, commontypes.RollappPacket_ON_ACK, commontypes.RollappPacket_ON_TIMEOUT} {
+		if t != typ {
+			before = append(before, mk(t, 1<<40))
+			after = append(after, mk(t, 1))
+		}
+	}
+	msgs := append(append(before, mk(typ, proofHeight)), after...)
+	out, err := commontypes.NewIBCProofHeightDecorator().AnteHandle(ctx, pkTx{msgs}, false,
+		func(c sdk.Context, _ sdk.Tx, _ bool) (sdk.Context, error) { return c, nil })
+	if err != nil {
+		f.T.Fatalf("proof height decorator: %v", err)
+	}
+	return out
 }
